@@ -191,8 +191,8 @@ def run_struct(pid, tier, oname, profiles, extra=None, min_guard=None):
     specs = []
     for T in impl.TYPES:
         for (prof, bq, bt) in profiles:
-            if prof == 'fwd':
-                fa = explore.forward_alphabet(T)
+            if prof in ('fwd', 'deep'):
+                fa = explore.forward_alphabet(T) if prof == 'fwd' else explore.deep_alphabet(T)
                 if fa:
                     specs.append(explore.Spec(T, prof, bq if tier == 'quick' else bt, oname, sigma=fa))
                 continue
